@@ -29,25 +29,25 @@ Proof. vm_compute. reflexivity. Qed.
    the relay but neither alters, withholds nor stops it), both channels are empty, and the queue
    was given exactly the messages sequential framing finds in the relayed bytes. *)
 Theorem C19_relay_every_schedule :
-  forall (B M FS : Type) (fstep : FS -> B -> FS * list M) cap0 cap1 (chunks : list (list B)) (s0 : FS),
+  forall (B M FS : Type) (fstep : FS -> B -> FS * list M) (sync : nat -> bool) cap0 cap1 (chunks : list (list B)) (s0 : FS),
   (1 <= cap0)%nat -> (1 <= cap1)%nat ->
   exists n, forall m c,
-    steps _ (nstep _ _ _ (Relay.prog B M FS fstep) Relay.sender Relay.receiver (Relay.QDead B M FS)) m
+    steps _ (nstep _ _ _ (Relay.prog B M FS fstep sync) Relay.sender Relay.receiver (Relay.QDead B M FS)) m
           (Relay.init B M FS cap0 cap1 chunks s0) c ->
     (m <= n)%nat /\
-    steps _ (nstep _ _ _ (Relay.prog B M FS fstep) Relay.sender Relay.receiver (Relay.QDead B M FS)) (n - m) c
+    steps _ (nstep _ _ _ (Relay.prog B M FS fstep sync) Relay.sender Relay.receiver (Relay.QDead B M FS)) (n - m) c
           (Relay.fin B M FS fstep cap0 cap1 chunks s0) /\
-    (final_config _ _ _ (Relay.prog B M FS fstep) Relay.sender Relay.receiver (Relay.QDead B M FS) c ->
+    (final_config _ _ _ (Relay.prog B M FS fstep sync) Relay.sender Relay.receiver (Relay.QDead B M FS) c ->
      c = Relay.fin B M FS fstep cap0 cap1 chunks s0).
 Proof. exact Relay.relay_every_schedule. Qed.
 Print Assumptions C19_relay_every_schedule.
 
 Theorem C19_relay_final :
-  forall (B M FS : Type) (fstep : FS -> B -> FS * list M) cap0 cap1 (chunks : list (list B)) (s0 : FS),
+  forall (B M FS : Type) (fstep : FS -> B -> FS * list M) (sync : nat -> bool) cap0 cap1 (chunks : list (list B)) (s0 : FS),
   let f := Relay.fin B M FS fstep cap0 cap1 chunks s0 in
   Relay.server_writes B M FS f = map (Relay.EvW B M) chunks /\
   Relay.queue_adds B M FS f = map (Relay.EvQ B M) (fst (Relay.frun B M FS fstep s0 (concat chunks))) /\
-  Relay.prog B M FS fstep (nth 0%nat (procs f) (Relay.QDead B M FS)) = OHalt _ _ _ /\
+  Relay.prog B M FS fstep sync (nth 0%nat (procs f) (Relay.QDead B M FS)) = OHalt _ _ _ /\
   buf (nth 0%nat (chans f) (dchan _)) = [] /\ buf (nth 1%nat (chans f) (dchan _)) = [].
 Proof. exact Relay.fin_shape. Qed.
 Print Assumptions C19_relay_final.
